@@ -479,6 +479,28 @@ fn cmd_render1(args: &[String]) {
     print!("{}", s);
 }
 
+/// milliseconds (since process start, +1) at which the running stage began; 0 = no stage is running
+static STAGE_STARTED: std::sync::atomic::AtomicU64 = std::sync::atomic::AtomicU64::new(0);
+
+fn now_ms() -> u64 {
+    static T0: std::sync::OnceLock<std::time::Instant> = std::sync::OnceLock::new();
+    T0.get_or_init(std::time::Instant::now).elapsed().as_millis() as u64 + 1
+}
+
+/// wall-clock cap per stage: a hang (e.g. an endless FK-chain walk) ends the batch with exit status 3
+fn start_watchdog(cap_ms: u64) {
+    let _ = now_ms();
+    std::thread::spawn(move || loop {
+        std::thread::sleep(std::time::Duration::from_millis(50));
+        let s = STAGE_STARTED.load(std::sync::atomic::Ordering::SeqCst);
+        if s != 0 && now_ms().saturating_sub(s) > cap_ms {
+            println!("TIMEOUT {}", cap_ms);
+            let _ = std::io::stdout().flush();
+            std::process::exit(3);
+        }
+    });
+}
+
 fn stage<F: FnOnce() -> Result<String, String>>(i: usize, name: &str, skip: &[String], f: F) {
     if skip.iter().any(|s| s == name) {
         return;
@@ -486,7 +508,9 @@ fn stage<F: FnOnce() -> Result<String, String>>(i: usize, name: &str, skip: &[St
     println!("BEGIN {} {}", i, name);
     let _ = std::io::stdout().flush();
     let t0 = std::time::Instant::now();
+    STAGE_STARTED.store(now_ms(), std::sync::atomic::Ordering::SeqCst);
     let r = catch_unwind(AssertUnwindSafe(f));
+    STAGE_STARTED.store(0, std::sync::atomic::Ordering::SeqCst);
     let ms = t0.elapsed().as_millis();
     match r {
         Ok(Ok(info)) => println!("END {} {} ok {} {}", i, name, ms, info),
@@ -500,6 +524,7 @@ fn cmd_c16(args: &[String]) {
     let cases = load_cases(&arg(args, "--cases", ""));
     let start: usize = arg(args, "--start", "0").parse().unwrap();
     let skip_first: Vec<String> = arg(args, "--skip", "").split(',').filter(|s| !s.is_empty()).map(|s| s.to_string()).collect();
+    start_watchdog(arg(args, "--stage-cap-ms", "5000").parse().unwrap());
     // one line per panic on stdout: where and (truncated) why — the driver attaches it to the failing stage
     std::panic::set_hook(Box::new(|info| {
         let loc = info.location().map(|l| format!("{}:{}", l.file(), l.line())).unwrap_or_default();
